@@ -1120,5 +1120,9 @@ func (w *Worker) callStub(fr *frame, fn *ssa.Function, how string, args []Value)
 	if h == nil {
 		fr.p.unsupported("stub target %s not found in harness package", how)
 	}
+	if fn.Signature.Recv() != nil && h.Signature.Params().Len() == len(args)-1 {
+		// replacement without the receiver parameter (receiver type unexported in another package)
+		args = args[1:]
+	}
 	return w.call(fr, token.NoPos, h, args)
 }
